@@ -1,6 +1,64 @@
 import PGT.Proofs.ExclusionPruneEmbed
 import PGT.Proofs.OrderIndepEmbed
 import PGT.Proofs.OrderIndepSiblings
+/-
+P56 / C11 - `Copy<T>FromTerraform` of the pruned IR when the excluded field is a child of a NULLABLE embedded message
+(the case `ExclusionPruneEmbed.lean` leaves open: `copyFrom_pruneE_nullable_full`).
+
+The block of such a child reads and writes the target through the parent pointer `obj.P` (`writeField`, `allocParent`,
+`embedGuard` of `CopyFrom.lean`): a known value allocates a nil parent, a null / unknown value resets the field if the
+parent is there and does nothing otherwise. So the removed block may be the one that allocates `obj.P`; later blocks of
+surviving siblings with null values then write reset values (`zeroWrite`: "" / nil / `[]` / `map{}`) on one side and
+nothing on the other. The three candidate statements:
+
+ (a) literal agreement outside `allDroppedGo ++ allDroppedOO ++ allDroppedParents` (the conjecture of
+     ExclusionPruneEmbed.lean):  FALSE as stated (`copyFrom_pruneE_nullable_full_false`: a removed ordinary field whose Go
+     name is the parent pointer of a surviving child with an ill-shaped value type - the pruned converter is stuck);
+     TRUE for struct targets under the hygiene condition `ParentsApart` (`copyFrom_pruneE_nullable_offParents`), as a
+     corollary of the precise statement below.
+ (b) agreement in the normal form of C04 on everything but the excluded child:  the precise form is the relation `PRel`
+     (`copyFrom_pruneE_nullable`, MAIN, removed nodes at ANY depth); its reading for the children of the parent is
+     `cfield_rel` / `getVal_child_rel` (every surviving child: related values behind two allocated parents, or readings
+     equal in normal form: nil ≡ empty) and `getVal_scalar_child` / `nfEqField_scalar_child` (scalar children: equal
+     readings, equal `Spec.nfEqField`). The single statement over `Spec.nfEqFields` is left open
+     (`copyFrom_pruneE_nfEq_full`).
+ (c) literal agreement (outside the removed Go fields and holders only)
+     - when the prior struct already holds the parent:  TRUE (`copyFrom_pruneE_parent_held`,
+       `copyFrom_pruneE_parent_held_literal` - the conclusion of `copyFrom_pruneE_deep` without `plainFs`);
+     - when some other surviving child of the parent is known and non-null:  FALSE
+       (`Example.sibling_known_not_literal`: `E.L` is the empty slice on one side, nil on the other).
+
+Contents
+  1. `PRel D Par Z κ` - the relation between the result of the unpruned converter (left) and of the pruned one (right):
+     `OffG D` of ExclusionPrune.lean (agreement outside the Go fields named in `D`, at any depth), extended at the Go
+     fields `P ∈ Par` (pointers to nullable embedded messages with a removed child): both allocated, to structs that agree
+     outside `D` field by field where a field absent on the right may hold a reset value on the left (`pinner`); or
+     allocated on the left only, to a struct of reset values (`palloc`, second alternative of `struct.hdom`). Indexed by
+     the position `κ` of the value so that the two extra constructors can only occur AT such a Go field. Asymmetric: the
+     right parent is allocated only if the left one is. `PV`, `pv_cases` (the three states of a parent pointer),
+     `PRel.setField`, `PRel.setLeft`, `prel_embedSet_both`, `prel_embedSet_left`, `prel_resetOneOfs`.
+  2. congruence of the blocks of ordinary fields in their recursive call, for `PRel` (`fieldWith_frel`; the proofs of
+     `ExclusionPrune.fieldWith_frel` carry over).
+  3. the block of a child of a nullable embedded message: uniform description of the block of the same field of the
+     embedded struct (`plain_sem`, `plain_writes`, `plain_shape`, `plain_null`), the child's block through the parent
+     pointer (`pe_run_ok`, `pe_idle`, `pe_custom_run`, `prim_branch_form`, `objbranch_known`, `objbranch_null`),
+     `pe_rel` (surviving child, both sides, all kinds, oneof branches included), `pe_drop` (removed child, left side
+     only), `pe_keeps_alloc`. No typing hypothesis (`Fits` of OrderIndepSiblings.lean is not needed: the pruned run
+     executes a subset of the guarded bodies of the unpruned run).
+  4. `copyFromFields_deepN` / `blockF_deepN` - the mutual induction over the IR.
+  5. `copyFrom_pruneE_nullable` (MAIN), `PRel.toOffG`, `copyFrom_pruneE_nullable_offParents` (a),
+     `copyFromFields_held`, `copyFrom_pruneE_parent_held(_literal)` (c), `cfield_rel`, `getVal_scalar_child`,
+     `nfEqField_scalar_child`, `getVal_child_rel` (b), `copyFrom_pruneE_nullable_full_false`,
+     `exclusion_surgical_nullable` (end to end for a selected root).
+  6. `Example`: root with a nullable embedded message of two scalar children, `R.x` excluded; plans: only the excluded
+     child known / only the other / both / none; priors: empty / parent already set; the theorems instantiated; the
+     same one level down (`R.m.x`); `sibling_known_not_literal`.
+
+Hypotheses of MAIN: the target is a struct; `oneOfNames` stored as built (`ooOkFs`, `hm`: true of every built IR,
+`built_ooOk`); `ParentsApart` (decidable, `parentsApartB`): no pointer to a nullable embedded message is a Go field that a
+removed block assigns or the holder of a removed branch - necessary (`copyFrom_pruneE_nullable_full_false`).
+OPEN: `copyFrom_pruneE_nfEq_full`; `ParentsApart` is not derived from the build; non-struct targets.
+-/
 
 set_option linter.unusedSimpArgs false
 set_option linter.unusedVariables false
@@ -2135,6 +2193,206 @@ theorem copyFrom_pruneE_nullable_offParents (ov : List (String × String)) (c : 
   obtain ⟨r2, h2, hrel⟩ := copyFrom_pruneE_nullable ov c own m tf obj r1 hobj hoo hm hH h
   exact ⟨r2, h2, hrel.toOffG (fun k e => by cases e)⟩
 
+/-! ### (c): literal agreement when the prior struct already holds the parent -/
+
+theorem alloc_resetOneOfs {Q : String} (ns : List String) (hQ : Q ∉ ns) : ∀ (o : GoVal), Alloc Q o → Alloc Q (resetOneOfs ns o) := by
+  unfold resetOneOfs
+  induction ns with
+  | nil => intro o h; exact h
+  | cons n ns ih =>
+    intro o h
+    rw [List.foldl_cons]
+    exact ih (fun h' => hQ (List.mem_cons_of_mem _ h')) _ (alloc_setField _ h (fun e => hQ (e ▸ List.mem_cons_self)))
+
+section held
+variable {D Par : List String} {Z : String → String → GoVal → Prop}
+
+/-- **the field blocks of the message itself, when the parents `A` of the removed children (at this level) are allocated
+on the right** (hence on the left) **and no block of this level sets them back to nil**: these parents need not be in
+`Par` -/
+theorem copyFromFields_held (c : PCfg) (ov : List (String × String)) (A : List String) : ∀ (fs : List Field),
+    (∀ i ∈ infosFs fs, i.parentIsOptionalEmbed = true → i.parentIsOptionalEmbedFieldName ∉ D) →
+    (∀ i ∈ infosFs fs, i.parentIsOptionalEmbed = true → i.kind ≠ .custom →
+      Z i.parentIsOptionalEmbedFieldName i.name (zeroWrite i)) →
+    ooOkFs c fs = true → (∀ x ∈ allDroppedGo c.p fs, x ∈ D) → (∀ x ∈ allDroppedOO c.p fs, x ∈ D) →
+    (∀ f ∈ fs, dropped c.p f.info = true → f.info.parentIsOptionalEmbed = true →
+      f.info.parentIsOptionalEmbedFieldName ∈ Par ∨ f.info.parentIsOptionalEmbedFieldName ∈ A) →
+    (∀ f ∈ fs, dropped c.p f.info = false → ∀ x ∈ allDroppedParentsF c.p f, x ∈ Par) →
+    (∀ f ∈ fs, ∀ Q ∈ A, (f.info.parentIsOptionalEmbed = false → wk f.info ≠ Q) ∧
+      (f.info.oneOfName ≠ "" → f.info.oneOfName ≠ Q)) →
+    ∀ (attrs : Option (List (String × TfVal))) (s1 s2 t1 : FromSt), IsStruct s1.obj → PRel D Par Z none s1.obj s2.obj →
+    (∀ Q ∈ A, Alloc Q s2.obj) →
+    copyFromFields ov fs attrs s1 = .ok t1 →
+    ∃ t2, copyFromFields ov (pruneFsE c fs) attrs s2 = .ok t2 ∧ PRel D Par Z none t1.obj t2.obj
+  | [], _, _, _, _, _, _, _, _, attrs, s1, s2, t1, _, hs, _, h => by
+    simp only [copyFromFields] at h
+    injection h with h
+    subst h
+    rw [pruneFsE_nil]
+    exact ⟨s2, by simp [copyFromFields], hs⟩
+  | f :: rest, hH, hZ, hoo, hD, hDo, hTop, hDeep, hKeep, attrs, s1, s2, t1, hst, hs, hA, h => by
+    rw [ooOkFs, Bool.and_eq_true] at hoo
+    rw [allDroppedGo] at hD
+    rw [allDroppedOO] at hDo
+    have hHrest : ∀ i ∈ infosFs rest, i.parentIsOptionalEmbed = true → i.parentIsOptionalEmbedFieldName ∉ D :=
+      fun i hi => hH i (by rw [infosFs]; exact List.mem_append_right _ hi)
+    have hZrest : ∀ i ∈ infosFs rest, i.parentIsOptionalEmbed = true → i.kind ≠ .custom →
+        Z i.parentIsOptionalEmbedFieldName i.name (zeroWrite i) :=
+      fun i hi => hZ i (by rw [infosFs]; exact List.mem_append_right _ hi)
+    have hDrest : ∀ x ∈ allDroppedGo c.p rest, x ∈ D := fun x hx => hD x (List.mem_append_right _ hx)
+    have hDorest : ∀ x ∈ allDroppedOO c.p rest, x ∈ D := fun x hx => hDo x (List.mem_append_right _ hx)
+    have hTopR := fun g (hg : g ∈ rest) => hTop g (List.mem_cons_of_mem _ hg)
+    have hDeepR := fun g (hg : g ∈ rest) => hDeep g (List.mem_cons_of_mem _ hg)
+    have hKeepR := fun g (hg : g ∈ rest) => hKeep g (List.mem_cons_of_mem _ hg)
+    rw [copyFromFields_cons] at h
+    cases hb : blockF ov f attrs s1 with
+    | panic w => rw [hb] at h; cases h
+    | stuck w => rw [hb] at h; cases h
+    | ok u1 =>
+      rw [hb] at h
+      simp only [obind] at h
+      have hu1 : IsStruct u1.obj := blockF_isStruct ov f attrs s1 u1 hst hb
+      rw [pruneFsE_cons]
+      cases hd : dropped c.p f.info with
+      | true =>
+        simp only [if_true]
+        have hkD : wk f.info ∈ D := hD _ (List.mem_append_left _ (by simp [hd]))
+        refine copyFromFields_held c ov A rest hHrest hZrest hoo.2 hDrest hDorest hTopR hDeepR hKeepR attrs u1 s2 t1 hu1
+          ?_ hA h
+        cases hef : f.info.parentIsOptionalEmbed with
+        | false =>
+          obtain ⟨a, hpa, ha⟩ := blockF_nf ov f attrs hef
+          rw [ha s1] at hb
+          cases a with
+          | panic w => simp [applyFAct] at hb
+          | stuck w => simp [applyFAct] at hb
+          | ok r =>
+            obtain ⟨ws, dx, hx⟩ := r
+            simp only [applyFAct, Outcome.ok.injEq] at hb
+            subst hb
+            exact hs.applyWrites_left ws (fun w hw => by rw [(hpa ws dx hx rfl).1 w hw]; exact hkD)
+        | true =>
+          have hPA := hTop f List.mem_cons_self hd hef
+          obtain ⟨info, mv, msg, sub⟩ := f
+          simp only at hef hd hkD hPA
+          have hph : info.isPlaceholder = false := by
+            cases hx : info.isPlaceholder with
+            | false => rfl
+            | true => simp [dropped, hx] at hd
+          rw [blockF_eq ov info mv msg sub attrs s1 hph] at hb
+          have hP : info.parentIsOptionalEmbedFieldName ∉ D :=
+            hH info (by rw [infosFs, infosF]; exact List.mem_append_left _ List.mem_cons_self) hef
+          have hoo' : info.oneOfName ≠ "" → info.oneOfName ∈ D := by
+            intro hne
+            have hb' : (info.oneOfName == "") = false := by simpa using hne
+            exact hDo _ (List.mem_append_left _ (by simp [hd, hb']))
+          refine pe_drop (recOf ov msg sub) ov info mv msg attrs s1.diags s1.hooks hef hP hkD hoo' s1.obj s2.obj u1 hst hs
+            ?_ hb
+          rcases hPA with hp | hp
+          · exact Or.inl hp
+          · exact Or.inr (hA _ hp)
+      | false =>
+        simp only [Bool.false_eq_true, if_false]
+        rw [copyFromFields_cons]
+        have hHf : ∀ i ∈ infosF f, i.parentIsOptionalEmbed = true → i.parentIsOptionalEmbedFieldName ∉ D :=
+          fun i hi => hH i (by rw [infosFs]; exact List.mem_append_left _ hi)
+        have hZf : ∀ i ∈ infosF f, i.parentIsOptionalEmbed = true → i.kind ≠ .custom →
+            Z i.parentIsOptionalEmbedFieldName i.name (zeroWrite i) :=
+          fun i hi => hZ i (by rw [infosFs]; exact List.mem_append_left _ hi)
+        have hDf : ∀ x ∈ allDroppedGoF c.p f, x ∈ D := fun x hx => hD x (List.mem_append_left _ (by simpa [hd] using hx))
+        have hDof : ∀ x ∈ allDroppedOOF c.p f, x ∈ D := fun x hx => hDo x (List.mem_append_left _ (by simpa [hd] using hx))
+        obtain ⟨u2, hu2, hoff⟩ := blockF_deepN c ov f hHf hZf hoo.1 hDf hDof (hDeep f List.mem_cons_self hd) attrs s1 s2 u1
+          hst hs hb
+        rw [hu2]
+        simp only [obind]
+        have hs2 : IsStruct s2.obj := hs.isStruct_iff.mp hst
+        refine copyFromFields_held c ov A rest hHrest hZrest hoo.2 hDrest hDorest hTopR hDeepR hKeepR attrs u1 u2 t1 hu1
+          hoff (fun Q hQ => ?_) h
+        have hk := hKeep f List.mem_cons_self Q hQ
+        refine blockF_keeps_alloc ov (pruneFE c f) attrs s2 u2 hs2 Q (hA Q hQ) ?_ ?_ hu2
+        · rw [pruneFE_info]; exact hk.1
+        · rw [pruneFE_info]; exact hk.2
+
+end held
+
+/-- **(c), the prior struct holds the parents.** `A`: parent pointers that the prior struct `obj` holds allocated and
+that no block of the message itself sets back to nil (`hKeep`; they are not holders of the message: `hAn`). The parents of
+the removed children of the message itself may be in `A` instead of `Par`. -/
+theorem copyFrom_pruneE_parent_held (ov : List (String × String)) (c : PCfg) (own : List String) (m : Msg) (tf : TfVal)
+    (obj : GoVal) (r1 : FromResult) (A Par : List String)
+    (hobj : IsStruct obj) (hoo : ooOkFs c m.fields = true)
+    (hm : m.info.oneOfNames = reNames c.srt own m.fields) (hH : ParentsApart c.p m.fields)
+    (hA : ∀ Q ∈ A, Alloc Q obj) (hAn : ∀ Q ∈ A, Q ∉ m.info.oneOfNames)
+    (hTop : ∀ f ∈ m.fields, dropped c.p f.info = true → f.info.parentIsOptionalEmbed = true →
+      f.info.parentIsOptionalEmbedFieldName ∈ Par ∨ f.info.parentIsOptionalEmbedFieldName ∈ A)
+    (hDeep : ∀ f ∈ m.fields, dropped c.p f.info = false → ∀ x ∈ allDroppedParentsF c.p f, x ∈ Par)
+    (hKeep : ∀ f ∈ m.fields, ∀ Q ∈ A, (f.info.parentIsOptionalEmbed = false → wk f.info ≠ Q) ∧
+      (f.info.oneOfName ≠ "" → f.info.oneOfName ≠ Q))
+    (h : copyFrom ov m tf obj = .ok r1) :
+    ∃ r2, copyFrom ov (pruneE c own m) tf obj = .ok r2 ∧
+      PRel (allDroppedGo c.p m.fields ++ allDroppedOO c.p m.fields) Par (ResetOf m.fields) none r1.obj r2.obj := by
+  unfold copyFrom at h ⊢
+  cases tf with
+  | obj u n attrs atys =>
+    simp only [] at h ⊢
+    cases hf : copyFromFields ov m.fields attrs { obj := resetOneOfs m.info.oneOfNames obj } with
+    | panic w => rw [hf] at h; cases h
+    | stuck w => rw [hf] at h; cases h
+    | ok s1 =>
+      rw [hf] at h
+      injection h with h
+      subst h
+      obtain ⟨s2, h2, hoff⟩ := copyFromFields_held (D := allDroppedGo c.p m.fields ++ allDroppedOO c.p m.fields)
+        (Par := Par) (Z := ResetOf m.fields) c ov A m.fields
+        hH (fun i hi he hk => ⟨i, hi, he, hk, rfl, rfl, rfl⟩) hoo
+        (fun _ hx => List.mem_append_left _ hx) (fun _ hx => List.mem_append_right _ hx) hTop hDeep hKeep attrs
+        { obj := resetOneOfs m.info.oneOfNames obj }
+        { obj := resetOneOfs (reNames c.srt own (pruneFsE c m.fields)) obj } s1
+        (isStruct_resetOneOfs _ _ hobj)
+        (by
+          show PRel _ _ _ none (resetOneOfs _ obj) (resetOneOfs _ obj)
+          refine prel_resetOneOfs _ _ ?_ (PRel.refl _ _)
+          intro n hn
+          rw [hm]
+          exact names_off c _ own m.fields (fun _ hx => List.mem_append_right _ hx) n hn)
+        (fun Q hQ => alloc_resetOneOfs _
+          (fun hmem => hAn Q hQ (oneOfNames_pruneE_subset c own m hm Q hmem)) _ (hA Q hQ)) hf
+      show ∃ r2, (match copyFromFields ov (pruneFsE c m.fields) attrs
+          { obj := resetOneOfs (reNames c.srt own (pruneFsE c m.fields)) obj } with
+        | .ok st => Outcome.ok ({ obj := st.obj, diags := st.diags, hooks := st.hooks } : FromResult)
+        | .panic w => .panic w
+        | .stuck w => .stuck w) = .ok r2 ∧ _
+      rw [h2]
+      exact ⟨_, rfl, hoff⟩
+  | prim _ _ _ _ => cases h
+  | list _ _ _ _ => cases h
+  | map _ _ _ _ => cases h
+  | nilv => cases h
+  | foreign _ => cases h
+
+/-- **(c), literal form**: every removed child of a nullable embedded message is a field of `m` itself (none below:
+`hDeep`), and the prior struct holds their parents. Then the results agree LITERALLY outside the removed Go fields and
+holders - the statement of `ExclusionPruneEmbed.copyFrom_pruneE_deep`, without `plainFs`. -/
+theorem copyFrom_pruneE_parent_held_literal (ov : List (String × String)) (c : PCfg) (own : List String) (m : Msg)
+    (tf : TfVal) (obj : GoVal) (r1 : FromResult) (A : List String)
+    (hobj : IsStruct obj) (hoo : ooOkFs c m.fields = true)
+    (hm : m.info.oneOfNames = reNames c.srt own m.fields) (hH : ParentsApart c.p m.fields)
+    (hA : ∀ Q ∈ A, Alloc Q obj) (hAn : ∀ Q ∈ A, Q ∉ m.info.oneOfNames)
+    (hTop : ∀ f ∈ m.fields, dropped c.p f.info = true → f.info.parentIsOptionalEmbed = true →
+      f.info.parentIsOptionalEmbedFieldName ∈ A)
+    (hDeep : ∀ f ∈ m.fields, dropped c.p f.info = false → allDroppedParentsF c.p f = [])
+    (hKeep : ∀ f ∈ m.fields, ∀ Q ∈ A, (f.info.parentIsOptionalEmbed = false → wk f.info ≠ Q) ∧
+      (f.info.oneOfName ≠ "" → f.info.oneOfName ≠ Q))
+    (h : copyFrom ov m tf obj = .ok r1) :
+    ∃ r2, copyFrom ov (pruneE c own m) tf obj = .ok r2 ∧
+      OffG (allDroppedGo c.p m.fields ++ allDroppedOO c.p m.fields) r1.obj r2.obj := by
+  obtain ⟨r2, h2, hrel⟩ := copyFrom_pruneE_parent_held ov c own m tf obj r1 A [] hobj hoo hm hH hA hAn
+    (fun f hf hd he => Or.inr (hTop f hf hd he))
+    (fun f hf hd x hx => by rw [hDeep f hf hd] at hx; cases hx) hKeep h
+  refine ⟨r2, h2, ?_⟩
+  have := hrel.toOffG (fun k e => by cases e)
+  rwa [List.append_nil] at this
+
 /-! ### (b): agreement in the normal form of C04 on the surviving children of the parent -/
 
 /-- **what `PRel` says about the field `n` of the struct behind the parent pointer `P`** (`cfield`: `none` when the
@@ -2249,6 +2507,43 @@ theorem nfEqField_scalar_child {D Par : List String} {fs : List Field} {o1 o2 : 
   simp only [hb, Bool.false_eq_true, if_false, hk, hg]
   exact ⟨trivial, trivial⟩
 
+open PGT.Spec in
+/-- **(b) for a surviving child `g` of ANY kind (not of a custom type)**: in the total reading of C04 (`Spec.getVal`),
+either both sides hold related values behind two allocated parents, or the two readings are equal in the normal form of
+C04 (`ValNf`: literally equal, or - lists and maps - the same elements: nil ≡ empty). -/
+theorem getVal_child_rel {D Par : List String} {fs : List Field} {o1 o2 : GoVal}
+    (h : PRel D Par (ResetOf fs) none o1 o2) (g : FieldInfo)
+    (he : g.parentIsOptionalEmbed = true) (hk : g.kind ≠ .custom)
+    (hP : g.parentIsOptionalEmbedFieldName ∉ D) (hn : g.name ∉ D) (hnP : g.name ∉ Par)
+    (huniq : ∀ i ∈ infosFs fs, i.parentIsOptionalEmbed = true → i.kind ≠ .custom →
+      i.parentIsOptionalEmbedFieldName = g.parentIsOptionalEmbedFieldName → i.name = g.name → zeroWrite i = zeroWrite g) :
+    (∃ v1 v2, getVal g o1 = v1 ∧ getVal g o2 = v2 ∧
+      cfield g.parentIsOptionalEmbedFieldName g.name o1 = some v1 ∧
+      cfield g.parentIsOptionalEmbedFieldName g.name o2 = some v2 ∧ PRel D Par (ResetOf fs) (some g.name) v1 v2) ∨
+    ValNf g (getVal g o1) (getVal g o2) := by
+  rw [getVal_embed g o1 he, getVal_embed g o2 he]
+  rcases cfield_rel h g.parentIsOptionalEmbedFieldName g.name hP hn hnP with ⟨v1, v2, e1, e2, hr⟩ | ⟨e2, e1 | ⟨v, e1, hz⟩⟩
+  · exact Or.inl ⟨v1, v2, by rw [e1]; rfl, by rw [e2]; rfl, e1, e2, hr⟩
+  · rw [e1, e2]; exact Or.inr (Or.inl rfl)
+  · obtain ⟨i, hi, hie, hik, hip, hin, hv⟩ := hz
+    rw [e1, e2, hv, huniq i hi hie hik hip hin]
+    exact Or.inr (valNf_zero g hk).symm
+
+/-- OPEN (not proved, not used): (b) as ONE statement about the whole message in terms of `Spec.nfEqFields` over the
+surviving fields. What is proved: `cfield_rel` / `getVal_child_rel` (every surviving child, any kind: related values or
+equal in normal form) and `getVal_scalar_child` / `nfEqField_scalar_child` (scalar children: equal readings). What is
+missing: that `PRel`-related values of message / list / map fields are `nfEq`-equal - an induction over the IR and the
+value that needs the typing hypotheses of C04 (`RT3OK`-style) and "no field of a nested message is named like a removed
+Go field" (`PRel` ignores the names in `D` at every depth, `nfEqFields` does not). -/
+def copyFrom_pruneE_nfEq_full : Prop :=
+  ∀ (ov : List (String × String)) (c : PCfg) (own : List String) (m : Msg) (tf : TfVal) (obj : GoVal) (r1 r2 : FromResult),
+    IsStruct obj → ooOkFs c m.fields = true → m.info.oneOfNames = reNames c.srt own m.fields →
+    ParentsApart c.p m.fields → NamesOK m.fields →
+    (∀ f ∈ m.fields, dropped c.p f.info = false → noDropFs c.p f.sub = true) →
+    copyFrom ov m tf obj = .ok r1 → copyFrom ov (pruneE c own m) tf obj = .ok r2 →
+    PGT.Spec.nfEqFields (pruneFsE c m.fields) r1.obj r1.obj = true →
+    PGT.Spec.nfEqFields (pruneFsE c m.fields) r1.obj r2.obj = true
+
 /-! ### the conjecture as stated (no hygiene hypothesis) is false -/
 
 namespace Clash
@@ -2293,6 +2588,311 @@ theorem copyFrom_pruneE_nullable_full_false : ¬ copyFrom_pruneE_nullable_full :
 open Clash in
 example : parentsApartB cR.p mR.fields = false := by decide +kernel
 
+/-! ### end to end, for a selected root -/
+
+open PGT.Props.C11 PGT.Proofs.BuildErrors PGT.Proofs.PathUnique in
+/-- **C11 with children of nullable embedded messages, excluded field at any depth.** `cfg'` = `cfg` plus the path `p` in
+`exclude_fields`; `p` addresses by path only and is not the root's name; the root builds to `m` without the exclusion.
+Then it builds to `pruneE p m` with the exclusion (`exclusion_prunesE_root`), and - under the hygiene condition
+`ParentsApart p m.fields` (decidable on `m`) - `Copy<T>FromTerraform` of the pruned IR succeeds on every struct target on
+which the unpruned one does, with results related by `PRel` (see `copyFrom_pruneE_nullable`); in particular they agree
+literally outside the removed Go fields, the holders of removed branches and the parents of removed children. No
+hypothesis on embedded fields (`plainFs` of `exclusion_surgical_deepE` is gone). -/
+theorem exclusion_surgical_nullable (cfg : Config) (p : String) (req : Request) (desc : MsgD) (m : Msg)
+    (hpath : desc.name ≠ p)
+    (htn : typeFree p (ctxKeys (defaultFuel req) req (rootCtx desc)) = true)
+    (hb : buildRoot cfg req desc = .ok (some m)) :
+    buildRoot { cfg with excludeFields := p :: cfg.excludeFields } req desc =
+      .ok (some (pruneE (pcfg cfg req p) (oneOfNames desc) m)) ∧
+    (ParentsApart p m.fields → ∀ ov tf obj r1, IsStruct obj → copyFrom ov m tf obj = .ok r1 →
+      ∃ r2, copyFrom ov (pruneE (pcfg cfg req p) (oneOfNames desc) m) tf obj = .ok r2 ∧
+        PRel (allDroppedGo p m.fields ++ allDroppedOO p m.fields) (allDroppedParents p m.fields)
+          (ResetOf m.fields) none r1.obj r2.obj ∧
+        OffG (allDroppedGo p m.fields ++ allDroppedOO p m.fields ++ allDroppedParents p m.fields) r1.obj r2.obj) := by
+  have hbm := buildRoot_inv hb
+  have hm : m.info.oneOfNames = reNames (pcfg cfg req p).srt (oneOfNames desc) m.fields :=
+    built_oneOfNames _ (viewOf cfg) req desc true "" m hbm
+  have hoo : ooOkFs (pcfg cfg req p) m.fields = true :=
+    (built_ooOk (pcfg cfg req p) (viewOf cfg) rfl req (ownOf_ok req) (defaultFuel req)).1 desc true "" m hbm
+  refine ⟨exclusion_prunesE_root cfg p req desc m hpath htn hb, fun hH ov tf obj r1 hobj h => ?_⟩
+  obtain ⟨r2, h2, hrel⟩ := copyFrom_pruneE_nullable ov (pcfg cfg req p) (oneOfNames desc) m tf obj r1 hobj hoo hm hH h
+  exact ⟨r2, h2, hrel, hrel.toOffG (fun k e => by cases e)⟩
+
+/-! ## 6. concrete trees (`decide +kernel`) -/
+
+/-- `g` is the only child with its name under its parent: then `huniq` of `getVal_scalar_child` holds -/
+theorem huniq_of_eq {fs : List Field} {g : FieldInfo}
+    (h : ∀ i ∈ infosFs fs, i.parentIsOptionalEmbed = true →
+      i.parentIsOptionalEmbedFieldName = g.parentIsOptionalEmbedFieldName → i.name = g.name → i = g) :
+    ∀ i ∈ infosFs fs, i.parentIsOptionalEmbed = true → i.kind ≠ .custom →
+      i.parentIsOptionalEmbedFieldName = g.parentIsOptionalEmbedFieldName → i.name = g.name → zeroWrite i = zeroWrite g :=
+  fun i hi he _ hp hn => by rw [h i hi he hp hn]
+
+/-- literal agreement outside `D` implies: the fields of the struct behind an (un-removed) parent pointer are present on
+both sides or on neither -/
+theorem offG_cfield_isSome {D : List String} {o1 o2 : GoVal} (h : OffG D o1 o2) (P n : String) (hP : P ∉ D)
+    (hn : n ∉ D) : (cfield P n o1).isSome = (cfield P n o2).isSome := by
+  have inner : ∀ s s' : GoVal, OffG D s s' → (s.field? n).isSome = (s'.field? n).isSome := by
+    intro s s' h'
+    cases h' with
+    | refl => rfl
+    | struct fs fs' hdom _ => exact hdom n hn
+    | ptr => rfl
+    | slice => rfl
+    | map => rfl
+    | iface => rfl
+  have val : ∀ v v' : GoVal, OffG D v v' →
+      (match (some v : Option GoVal) with | some (.ptr (some s)) => s.field? n | _ => none).isSome =
+      (match (some v' : Option GoVal) with | some (.ptr (some s)) => s.field? n | _ => none).isSome := by
+    intro v v' h'
+    cases h' with
+    | refl => rfl
+    | struct => rfl
+    | ptr s s' h'' => exact inner s s' h''
+    | slice => rfl
+    | map => rfl
+    | iface => rfl
+  cases h with
+  | refl => rfl
+  | struct fs fs' hdom hval =>
+    unfold cfield
+    simp only [GoVal.field?]
+    have hd := hdom P hP
+    cases e : fs.lookup P with
+    | none =>
+      cases e' : fs'.lookup P with
+      | none => rfl
+      | some v' => rw [e, e'] at hd; cases hd
+    | some v =>
+      cases e' : fs'.lookup P with
+      | none => rw [e, e'] at hd; cases hd
+      | some v' => exact val v v' (hval P v v' hP e e')
+  | ptr => rfl
+  | slice => rfl
+  | map => rfl
+  | iface => rfl
+
+namespace Example
+open PGT.Proofs.ExclusionPrune.Example PGT.Spec
+
+/-- `E`: two scalar children -/
+def dE2 : MsgD := { name := "E", fields := [
+  { name := "x", type := "string" }, { name := "y", type := "string" } ] }
+/-- a root that embeds `E` BY POINTER -/
+def dR2 : MsgD := { name := "R", fields := [
+  { name := "id", type := "string" },
+  { name := "e", type := "message", typeName := "E", embed := true } ] }
+def reqN : Request := { file := { name := "e.proto", package := "e", messages := [dR2, dE2] } }
+/-- the IR of `R`: `Id`, and the children `X`, `Y` of the nullable embedded message (Go field `E`) -/
+def m2 : Msg := match buildMessage (defaultFuel reqN) (viewOf {}) reqN dR2 true "" with | .ok m => m | .error _ => default
+def c2 : PCfg := pcfg {} reqN "R.x"
+/-- the IR with `R.x` excluded -/
+def m2x : Msg := pruneE c2 [] m2
+
+/-- the generator builds `m2x` when `R.x` is in `exclude_fields` -/
+example : PGT.Proofs.ExclusionPruneEmbed.Example.checksE {} reqN dR2 "R.x" = true := by decide +kernel
+
+def kn (s : List UInt8) : TfVal := .prim .string false false (.str s)
+def nullS : TfVal := .prim .string false true (.str [])
+def plan (x y : TfVal) : TfVal := .obj false false (some [("id", nullS), ("x", x), ("y", y)]) none
+
+/-- a decidable rendering of the values that occur in the examples -/
+def leafCode : GoVal → List Nat
+  | .sc (.str s) => 0 :: s.map (·.toNat)
+  | .slice none => [1]
+  | .slice (some l) => [2, l.length]
+  | .ptr none => [3]
+  | _ => [9]
+
+/-- the Go field `E` of the result: `some none` = nil, `some (some fs)` = the fields of the allocated struct -/
+def viewE (r : Outcome FromResult) : Option (Option (List (String × List Nat))) :=
+  match r with
+  | .ok r => some (match r.obj.field? "E" with
+      | some (.ptr (some (.struct fs))) => some (fs.map fun (n, v) => (n, leafCode v))
+      | _ => none)
+  | _ => none
+
+/-- the hypotheses of the theorems on this tree; the removed Go field, no removed holder, the parent -/
+example : ooOkFs c2 m2.fields = true ∧ parentsApartB c2.p m2.fields = true ∧
+    m2.info.oneOfNames = reNames c2.srt [] m2.fields ∧
+    allDroppedGo c2.p m2.fields = ["X"] ∧ allDroppedOO c2.p m2.fields = [] ∧ allDroppedParents c2.p m2.fields = ["E"] := by
+  decide +kernel
+
+/-! ### prior struct empty; plans: only the excluded child known / only the other / both / none -/
+
+/-- only the excluded child known: without the exclusion `obj.E = &E{X: "a", Y: ""}` (the block of `x` allocates, the null
+`y` then resets `Y`); with it `obj.E` stays nil - allocated with reset values only vs nil (`palloc` / `struct`) -/
+example : viewE (copyFrom [] m2 (plan (kn [97]) nullS) (.struct [])) = some (some [("X", [0, 97]), ("Y", [0])]) ∧
+    viewE (copyFrom [] m2x (plan (kn [97]) nullS) (.struct [])) = some none := by decide +kernel
+/-- only the other child known: the same result, literally -/
+example : viewE (copyFrom [] m2 (plan nullS (kn [98])) (.struct [])) = some (some [("Y", [0, 98])]) ∧
+    viewE (copyFrom [] m2x (plan nullS (kn [98])) (.struct [])) = some (some [("Y", [0, 98])]) := by decide +kernel
+/-- both known: both allocate; the results differ in the removed Go field `X` only -/
+example : viewE (copyFrom [] m2 (plan (kn [97]) (kn [98])) (.struct [])) = some (some [("X", [0, 97]), ("Y", [0, 98])]) ∧
+    viewE (copyFrom [] m2x (plan (kn [97]) (kn [98])) (.struct [])) = some (some [("Y", [0, 98])]) := by decide +kernel
+/-- none known: `obj.E` stays nil on both sides -/
+example : viewE (copyFrom [] m2 (plan nullS nullS) (.struct [])) = some none ∧
+    viewE (copyFrom [] m2x (plan nullS nullS) (.struct [])) = some none := by decide +kernel
+
+/-! ### the prior struct holds the parent: literal agreement outside `X` -/
+
+def prior : GoVal := .struct [("E", .ptr (some (.struct [("Y", .sc (.str [111]))])))]
+
+example : viewE (copyFrom [] m2 (plan (kn [97]) nullS) prior) = some (some [("Y", [0]), ("X", [0, 97])]) ∧
+    viewE (copyFrom [] m2x (plan (kn [97]) nullS) prior) = some (some [("Y", [0])]) := by decide +kernel
+example : viewE (copyFrom [] m2 (plan nullS nullS) prior) = some (some [("Y", [0]), ("X", [0])]) ∧
+    viewE (copyFrom [] m2x (plan nullS nullS) prior) = some (some [("Y", [0])]) := by decide +kernel
+
+/-! ### the theorems on this tree -/
+
+/-- the main theorem, every plan and every prior struct -/
+example (tf : TfVal) (obj : GoVal) (r1 : FromResult) (hobj : IsStruct obj) (h : copyFrom [] m2 tf obj = .ok r1) :
+    ∃ r2, copyFrom [] m2x tf obj = .ok r2 ∧ PRel ["X"] ["E"] (ResetOf m2.fields) none r1.obj r2.obj := by
+  have := copyFrom_pruneE_nullable [] c2 [] m2 tf obj r1 hobj (by decide +kernel) (by decide +kernel)
+    (parentsApart_of_B (by decide +kernel)) h
+  rwa [show allDroppedGo c2.p m2.fields ++ allDroppedOO c2.p m2.fields = ["X"] by decide +kernel,
+    show allDroppedParents c2.p m2.fields = ["E"] by decide +kernel] at this
+
+/-- (a): agreement outside `X` and `E` -/
+example (tf : TfVal) (obj : GoVal) (r1 : FromResult) (hobj : IsStruct obj) (h : copyFrom [] m2 tf obj = .ok r1) :
+    ∃ r2, copyFrom [] m2x tf obj = .ok r2 ∧ OffG ["X", "E"] r1.obj r2.obj := by
+  have := copyFrom_pruneE_nullable_offParents [] c2 [] m2 tf obj r1 hobj (by decide +kernel) (by decide +kernel)
+    (parentsApart_of_B (by decide +kernel)) h
+  rwa [show allDroppedGo c2.p m2.fields ++ allDroppedOO c2.p m2.fields ++ allDroppedParents c2.p m2.fields = ["X", "E"] by
+    decide +kernel] at this
+
+/-- the node of the surviving child `Y` -/
+def yInfo : FieldInfo := (m2.fields.getD 2 default).info
+
+/-- (b): the surviving child `Y` reads the same (in the total reading of C04) after both converters, whatever the plan
+and the prior struct (with a scalar-shaped `E.Y`) -/
+example (tf : TfVal) (obj : GoVal) (r1 : FromResult) (hobj : IsStruct obj) (h : copyFrom [] m2 tf obj = .ok r1)
+    (hsc : ∀ v, cfield "E" "Y" r1.obj = some v → Scalarish v) :
+    ∃ r2, copyFrom [] m2x tf obj = .ok r2 ∧ getVal yInfo r1.obj = getVal yInfo r2.obj := by
+  obtain ⟨r2, h2, hrel⟩ := copyFrom_pruneE_nullable [] c2 [] m2 tf obj r1 hobj (by decide +kernel) (by decide +kernel)
+    (parentsApart_of_B (by decide +kernel)) h
+  refine ⟨r2, h2, getVal_scalar_child hrel yInfo (by decide +kernel) (by decide +kernel) ?_ ?_ ?_
+    (huniq_of_eq (by decide +kernel)) ?_⟩
+  · rw [show allDroppedGo c2.p m2.fields ++ allDroppedOO c2.p m2.fields = ["X"] by decide +kernel]
+    decide +kernel
+  · rw [show allDroppedGo c2.p m2.fields ++ allDroppedOO c2.p m2.fields = ["X"] by decide +kernel]
+    decide +kernel
+  · rw [show allDroppedParents c2.p m2.fields = ["E"] by decide +kernel]
+    decide +kernel
+  · rw [show yInfo.parentIsOptionalEmbedFieldName = "E" by decide +kernel, show yInfo.name = "Y" by decide +kernel]
+    exact hsc
+
+/-- (c): a prior struct that holds `E`: literal agreement outside `X` -/
+example (tf : TfVal) (obj : GoVal) (r1 : FromResult) (hobj : IsStruct obj) (hE : Alloc "E" obj)
+    (h : copyFrom [] m2 tf obj = .ok r1) :
+    ∃ r2, copyFrom [] m2x tf obj = .ok r2 ∧ OffG ["X"] r1.obj r2.obj := by
+  have := copyFrom_pruneE_parent_held_literal [] c2 [] m2 tf obj r1 ["E"] hobj (by decide +kernel) (by decide +kernel)
+    (parentsApart_of_B (by decide +kernel))
+    (fun Q hQ => by simp only [List.mem_singleton] at hQ; subst hQ; exact hE)
+    (by decide +kernel) (by decide +kernel) (by decide +kernel) (by decide +kernel) h
+  rwa [show allDroppedGo c2.p m2.fields ++ allDroppedOO c2.p m2.fields = ["X"] by decide +kernel] at this
+
+/-! ### (c), first half, is false: a known surviving sibling does not give literal agreement -/
+
+/-- `E`: a scalar, a list, a scalar -/
+def dE3 : MsgD := { name := "E", fields := [
+  { name := "x", type := "string" }, { name := "l", type := "string", card := .repeated },
+  { name := "z", type := "string" } ] }
+def dR3 : MsgD := { name := "R", fields := [
+  { name := "e", type := "message", typeName := "E", embed := true } ] }
+def req3 : Request := { file := { name := "e.proto", package := "e", messages := [dR3, dE3] } }
+def m3 : Msg := match buildMessage (defaultFuel req3) (viewOf {}) req3 dR3 true "" with | .ok m => m | .error _ => default
+def c3 : PCfg := pcfg {} req3 "R.x"
+def nullL : TfVal := .list false true none (some (.prim .string))
+/-- `x` and `z` known, the list `l` null -/
+def plan3 : TfVal := .obj false false (some [("x", kn [97]), ("l", nullL), ("z", kn [98])]) none
+
+/-- without the exclusion the block of `x` allocates `E`, so the null list `l` is reset to the EMPTY slice; with the
+exclusion `E` is allocated by the block of `z` only, after `l` was skipped: `L` stays nil -/
+example : viewE (copyFrom [] m3 plan3 (.struct [])) = some (some [("X", [0, 97]), ("L", [2, 0]), ("Z", [0, 98])]) ∧
+    viewE (copyFrom [] (pruneE c3 [] m3) plan3 (.struct [])) = some (some [("Z", [0, 98])]) := by decide +kernel
+
+def hasInner (r : Outcome FromResult) (P n : String) : Option Bool :=
+  match r with
+  | .ok r => some (cfield P n r.obj).isSome
+  | _ => none
+
+/-- **candidate (c), first half, is false**: the attribute `z` of a surviving sibling is known and non-null, both
+converters succeed and allocate `E`, and yet the results do not agree literally outside the removed Go field `X`: `E.L`
+is the empty slice on one side and nil (absent) on the other. (They agree in the sense of `PRel` - `pinner` - and in the
+normal form of C04.) -/
+theorem sibling_known_not_literal :
+    ∃ r1 r2, copyFrom [] m3 plan3 (.struct []) = .ok r1 ∧ copyFrom [] (pruneE c3 [] m3) plan3 (.struct []) = .ok r2 ∧
+      ¬ OffG (allDroppedGo c3.p m3.fields ++ allDroppedOO c3.p m3.fields) r1.obj r2.obj := by
+  have h1 : hasInner (copyFrom [] m3 plan3 (.struct [])) "E" "L" = some true := by decide +kernel
+  have h2 : hasInner (copyFrom [] (pruneE c3 [] m3) plan3 (.struct [])) "E" "L" = some false := by decide +kernel
+  have hD : allDroppedGo c3.p m3.fields ++ allDroppedOO c3.p m3.fields = ["X"] := by decide +kernel
+  cases e1 : copyFrom [] m3 plan3 (.struct []) with
+  | panic w => rw [e1] at h1; cases h1
+  | stuck w => rw [e1] at h1; cases h1
+  | ok r1 =>
+    cases e2 : copyFrom [] (pruneE c3 [] m3) plan3 (.struct []) with
+    | panic w => rw [e2] at h2; cases h2
+    | stuck w => rw [e2] at h2; cases h2
+    | ok r2 =>
+      refine ⟨r1, r2, rfl, rfl, ?_⟩
+      rw [e1] at h1
+      rw [e2] at h2
+      simp only [hasInner, Option.some.injEq] at h1 h2
+      rw [hD]
+      intro hoff
+      have := offG_cfield_isSome hoff "E" "L" (by decide) (by decide)
+      rw [h1, h2] at this
+      cases this
+
+/-! ### the nullable embedded message one level down: `R.m : M`, `M` embeds `E` by pointer; `R.m.x` excluded -/
+
+def dM4 : MsgD := { name := "M", fields := [
+  { name := "k", type := "string" },
+  { name := "e", type := "message", typeName := "E", embed := true } ] }
+def dR4 : MsgD := { name := "R", fields := [
+  { name := "id", type := "string" },
+  { name := "m", type := "message", typeName := "M" } ] }
+def req4 : Request := { file := { name := "e.proto", package := "e", messages := [dR4, dM4, dE2] } }
+def m4 : Msg := match buildMessage (defaultFuel req4) (viewOf {}) req4 dR4 true "" with | .ok m => m | .error _ => default
+def c4 : PCfg := pcfg {} req4 "R.m.x"
+
+example : PGT.Proofs.ExclusionPruneEmbed.Example.checksE {} req4 dR4 "R.m.x" = true := by decide +kernel
+example : ooOkFs c4 m4.fields = true ∧ parentsApartB c4.p m4.fields = true ∧
+    m4.info.oneOfNames = reNames c4.srt [] m4.fields ∧
+    allDroppedGo c4.p m4.fields = ["X"] ∧ allDroppedOO c4.p m4.fields = [] ∧ allDroppedParents c4.p m4.fields = ["E"] := by
+  decide +kernel
+
+/-- the main theorem two levels down (the removed child sits in the nested message `M`) -/
+example (tf : TfVal) (obj : GoVal) (r1 : FromResult) (hobj : IsStruct obj) (h : copyFrom [] m4 tf obj = .ok r1) :
+    ∃ r2, copyFrom [] (pruneE c4 [] m4) tf obj = .ok r2 ∧ PRel ["X"] ["E"] (ResetOf m4.fields) none r1.obj r2.obj := by
+  have := copyFrom_pruneE_nullable [] c4 [] m4 tf obj r1 hobj (by decide +kernel) (by decide +kernel)
+    (parentsApart_of_B (by decide +kernel)) h
+  rwa [show allDroppedGo c4.p m4.fields ++ allDroppedOO c4.p m4.fields = ["X"] by decide +kernel,
+    show allDroppedParents c4.p m4.fields = ["E"] by decide +kernel] at this
+
+/-- the Go field `M.E` of the result -/
+def viewME (r : Outcome FromResult) : Option (Option (List (String × List Nat))) :=
+  match r with
+  | .ok r => some (match r.obj.field? "M" with
+      | some (.ptr (some m)) =>
+        (match m.field? "E" with
+          | some (.ptr (some (.struct fs))) => some (fs.map fun (n, v) => (n, leafCode v))
+          | _ => none)
+      | _ => none)
+  | _ => none
+
+def planM (x y : TfVal) : TfVal :=
+  .obj false false (some [("id", nullS), ("m", .obj false false (some [("k", nullS), ("x", x), ("y", y)]) none)]) none
+
+example : viewME (copyFrom [] m4 (planM (kn [97]) nullS) (.struct [])) = some (some [("X", [0, 97]), ("Y", [0])]) ∧
+    viewME (copyFrom [] (pruneE c4 [] m4) (planM (kn [97]) nullS) (.struct [])) = some none := by decide +kernel
+example : viewME (copyFrom [] m4 (planM (kn [97]) (kn [98])) (.struct [])) = some (some [("X", [0, 97]), ("Y", [0, 98])]) ∧
+    viewME (copyFrom [] (pruneE c4 [] m4) (planM (kn [97]) (kn [98])) (.struct [])) = some (some [("Y", [0, 98])]) := by
+  decide +kernel
+
+end Example
+
 end PGT.Proofs.ExclusionPruneNullable
 
 section
@@ -2301,4 +2901,14 @@ open PGT.Proofs.ExclusionPruneNullable
 #print axioms copyFrom_pruneE_nullable
 #print axioms copyFrom_pruneE_nullable_offParents
 #print axioms copyFrom_pruneE_nullable_full_false
+#print axioms pe_rel
+#print axioms pe_drop
+#print axioms copyFrom_pruneE_parent_held
+#print axioms copyFrom_pruneE_parent_held_literal
+#print axioms cfield_rel
+#print axioms getVal_scalar_child
+#print axioms nfEqField_scalar_child
+#print axioms getVal_child_rel
+#print axioms exclusion_surgical_nullable
+#print axioms Example.sibling_known_not_literal
 end
